@@ -217,6 +217,10 @@ def gen_cases(rng, tier):
     for variant in (0, 1, 2, 3, 4):
         for fail_at in (1, 2, 3):
             yield case("flush_fault", [variant, fail_at]), ["flush-fault"]
+    # a TRANSIENT write error (Interrupted) at every write call of a small response, under a handler that retries on the same writer:
+    # no panic, the task ends, and the bytes on the wire are those of the undisturbed run
+    for fail_at in range(1, 60):
+        yield case("flush_fault", [5, fail_at]), ["flush-fault", "write-retry"]
     yield from close_readahead_fault_cases(rng, tier)
     yield from swallowed_flush_error_cases(rng, tier)
     yield from mixed_order_cases(rng, tier)
@@ -227,7 +231,7 @@ def nontrivial(line, tags):
 
 
 def min_classes(tier):
-    return {"eof": 2000, "read-error": 300, "write-fault": 300, "write-fault-aborted-kind": 60, "close-readahead-fault": 16, "swallowed-flush-error-then-write": 12, "mixed-order": 400, "hostile-bytes": 40, "flush-fault": 12}
+    return {"eof": 2000, "read-error": 300, "write-fault": 300, "write-fault-aborted-kind": 60, "close-readahead-fault": 16, "swallowed-flush-error-then-write": 12, "mixed-order": 400, "hostile-bytes": 40, "flush-fault": 12, "write-retry": 50}
 
 
 def outcome(line, out):
